@@ -1,7 +1,6 @@
 package simharness
 
 import (
-	"github.com/mitchellh/copystructure"
 	"bytes"
 	"context"
 	"crypto/hmac"
@@ -9,6 +8,7 @@ import (
 	"encoding/base64"
 	"encoding/json"
 	"fmt"
+	"github.com/mitchellh/copystructure"
 	"io"
 	"reflect"
 	"sort"
@@ -39,18 +39,18 @@ func init() {
 // ---- payload types (the statement's shape grammar, written out) ----------------------
 
 type encLeaf struct {
-	Pub     string                  `class:"public"`
-	PubOp   string                  `class:"public,redact"`
-	Sens    string                  `class:"sensitive"`
-	SensR   string                  `class:"sensitive,redact"`
-	SensH   string                  `class:"sensitive,hmac-sha256"`
-	SensE   string                  `class:"sensitive,encrypt"`
-	Sec     string                  `class:"secret"`
-	SecE    string                  `class:"secret,encrypt"`
-	SecH    string                  `class:"secret,hmac-sha256"`
-	SecBad  string                  `class:"secret,bogus"`
-	SecUp   string                  `class:"secret,REDACT"`
-	ClsUp   string                  `class:"SECRET"`
+	Pub     string `class:"public"`
+	PubOp   string `class:"public,redact"`
+	Sens    string `class:"sensitive"`
+	SensR   string `class:"sensitive,redact"`
+	SensH   string `class:"sensitive,hmac-sha256"`
+	SensE   string `class:"sensitive,encrypt"`
+	Sec     string `class:"secret"`
+	SecE    string `class:"secret,encrypt"`
+	SecH    string `class:"secret,hmac-sha256"`
+	SecBad  string `class:"secret,bogus"`
+	SecUp   string `class:"secret,REDACT"`
+	ClsUp   string `class:"SECRET"`
 	None    string
 	B       []byte                  `class:"sensitive"`
 	BSec    []byte                  `class:"secret"`
@@ -220,7 +220,7 @@ func (t encTagMap3) Tags() ([]encrypt.PointerTag, error) {
 		{Pointer: "/k~1slash", Classification: encrypt.SecretClassification, Filter: encrypt.HmacSha256Operation}, // key "k/slash"
 		{Pointer: "/p~1ub", Classification: encrypt.PublicClassification},                                         // key "p/ub"
 		{Pointer: "/k~0tilde", Classification: encrypt.SensitiveClassification, Filter: encrypt.EncryptOperation}, // key "k~tilde"
-		{Pointer: "/t~01x", Classification: encrypt.SecretClassification, Filter: encrypt.HmacSha256Operation},     // key "t~1x"
+		{Pointer: "/t~01x", Classification: encrypt.SecretClassification, Filter: encrypt.HmacSha256Operation},    // key "t~1x"
 	}, nil
 }
 
@@ -272,8 +272,17 @@ type encRotate struct {
 }
 
 func (r *encRotate) Wrapper() wrapping.Wrapper { return r.w }
-func (r *encRotate) HmacSalt() []byte          { return r.salt }
-func (r *encRotate) HmacInfo() []byte          { return r.info }
+
+// encRotateInfo is a rotation payload of an application whose events all carry their id: it
+// satisfies RotateWrapper AND EventWrapperInfo; it is a rotation all the same.
+type encRotateInfo struct {
+	encRotate
+	id string
+}
+
+func (r *encRotateInfo) EventId() string { return r.id }
+func (r *encRotate) HmacSalt() []byte    { return r.salt }
+func (r *encRotate) HmacInfo() []byte    { return r.info }
 
 // ---- generator -----------------------------------------------------------------------------
 
@@ -283,11 +292,11 @@ type leafExp struct {
 }
 
 type encGen struct {
-	d         *drawRec
-	k         int
-	exp       map[string]*leafExp // canary -> expectation
-	overrides map[encrypt.DataClassification]encrypt.FilterOperation
-	fill      int // percent of leaves that get a value
+	d           *drawRec
+	k           int
+	exp         map[string]*leafExp // canary -> expectation
+	overrides   map[encrypt.DataClassification]encrypt.FilterOperation
+	fill        int // percent of leaves that get a value
 	withIgnored bool
 }
 
@@ -926,11 +935,11 @@ func (g *encGen) payload(kind int, depth int) (interface{}, string) {
 // ---- key material and independent crypto -----------------------------------------------
 
 type keyVersion struct {
-	n     int
-	key   []byte
-	w     *aead.Wrapper
-	salt  []byte
-	info  []byte
+	n    int
+	key  []byte
+	w    *aead.Wrapper
+	salt []byte
+	info []byte
 }
 
 func newAead(key []byte, id string) *aead.Wrapper {
@@ -1000,15 +1009,15 @@ func dumpJSON(v interface{}) string {
 }
 
 type encCheck struct {
-	input   interface{}
-	output  interface{}
-	rc      *RunCtx
-	prop    string
-	exp     map[string]*leafExp
-	top     string
-	verify  func(treat string, plain []byte, out string) string // "" ok, else problem
-	leaks   int
-	shape   []string
+	input  interface{}
+	output interface{}
+	rc     *RunCtx
+	prop   string
+	exp    map[string]*leafExp
+	top    string
+	verify func(treat string, plain []byte, out string) string // "" ok, else problem
+	leaks  int
+	shape  []string
 }
 
 func isWrapperPB(t reflect.Type) bool {
@@ -1276,7 +1285,11 @@ func runEncrypt(rc *RunCtx, prop string) {
 					nv.info = []byte(fmt.Sprintf("info-%d", nv.n))
 				}
 				if tp.Choose(2, "via-payload") == 0 {
-					out, err := f.Process(ctx, &el.Event{Type: "rotate", Payload: &encRotate{w: nv.w, salt: nv.salt, info: nv.info}})
+					var rp interface{} = &encRotate{w: nv.w, salt: nv.salt, info: nv.info}
+					if tp.Choose(2, "rotation-payload-with-event-id") == 0 {
+						rp = &encRotateInfo{encRotate{w: nv.w, salt: nv.salt, info: nv.info}, "rotation-event"}
+					}
+					out, err := f.Process(ctx, &el.Event{Type: "rotate", Payload: rp})
 					if out != nil || err != nil {
 						rc.Failf("C16.rotation-payload", "", "a rotation payload must be consumed (nil, nil), got (%v, %v)", out, err)
 					}
@@ -1289,15 +1302,36 @@ func runEncrypt(rc *RunCtx, prop string) {
 				cur = nv
 				simrt.Probe("encrypt.rotated")
 			}
+			// C09: a rotation payload (here: to the key already in force) is consumed, whatever else it implements
+			if prop == "C09" && wrapperMode == "aead" && tp.Choose(8, "noop-rotation-payload") == 0 {
+				var rp interface{} = &encRotate{w: cur.w, salt: cur.salt, info: cur.info}
+				if tp.Choose(2, "rotation-payload-with-event-id") == 0 {
+					rp = &encRotateInfo{encRotate{w: cur.w, salt: cur.salt, info: cur.info}, "rotation-event"}
+				}
+				if out, err := f.Process(ctx, &el.Event{Type: "rotate", Payload: rp}); out != nil || err != nil {
+					rc.Failf("C09.rotation-payload-forwarded", "", "a key-rotation payload (%T) must be consumed (nil, nil), got (%v, %v)", rp, out != nil, err)
+				}
+				simrt.Probe("encrypt.rotation-payload-in-c09")
+			}
 			// the overrides of a live filter may be reconfigured between events
 			if (prop == "C09" || prop == "C10") && i > 0 && !allNone && tp.Choose(4, "reconfigure") == 0 {
-				overrides = map[encrypt.DataClassification]encrypt.FilterOperation{}
+				inPlace := f.FilterOperationOverrides != nil && tp.Choose(2, "reconfigure-in-place") == 0
+				if inPlace {
+					// the application edits the map it configured instead of assigning a new one
+					for k := range overrides {
+						delete(overrides, k)
+					}
+				} else {
+					overrides = map[encrypt.DataClassification]encrypt.FilterOperation{}
+				}
 				for _, cls := range []encrypt.DataClassification{encrypt.PublicClassification, encrypt.SensitiveClassification, encrypt.SecretClassification} {
 					if tp.Choose(3, "override?") == 0 {
 						overrides[cls] = allOps[tp.Choose(4, "override")]
 					}
 				}
-				if len(overrides) > 0 {
+				if inPlace {
+					simrt.Probe("encrypt.overrides-edited-in-place")
+				} else if len(overrides) > 0 {
 					f.FilterOperationOverrides = overrides
 				} else {
 					f.FilterOperationOverrides = nil
